@@ -1,7 +1,7 @@
 CONSTANTS
   Codec = "lp"
   Alpha = {0, 1, 2, 9}
-  MaxLen = 6
+  MaxLen = 5
   LpBad = 9
   LpScale = 1
   EofDecodes = TRUE
